@@ -209,6 +209,10 @@ func runC06(c *Ctx) {
 	// must be rejected: unhandled critical extension, unknown version
 	add("critical-ext", caEC, CRLOpts{CriticalExt: asn1.ObjectIdentifier{2, 5, 29, 27}, Entries: c06Entries(r, 3, true)}, "der", "pemlf")
 	add("critical-ext-idp", caEC, CRLOpts{CriticalExt: asn1.ObjectIdentifier{2, 5, 29, 28}}, "der")
+	// the gate must not depend on what else the extension list carries: no cRLNumber, no AKI, neither
+	add("critical-ext-no-number", caEC, CRLOpts{CriticalExt: asn1.ObjectIdentifier{2, 5, 29, 27}, NoNumber: true, Entries: c06Entries(r, 3, true)}, "der", "pemlf")
+	add("critical-ext-no-aki", caEC, CRLOpts{CriticalExt: asn1.ObjectIdentifier{2, 5, 29, 27}, NoAKI: true, Entries: c06Entries(r, 2, true)}, "der")
+	add("critical-ext-alone", caEC, CRLOpts{CriticalExt: asn1.ObjectIdentifier{2, 5, 29, 28}, NoAKI: true, NoNumber: true}, "der", "pemcrlf")
 	add("version3", caEC, CRLOpts{Version: 3, Entries: c06Entries(r, 2, true)}, "der")
 	add("version4", caEC, CRLOpts{Version: 4}, "der")
 	// version bytes at the edges of uint8: 0x7f (128) and 0xff (INTEGER -1; int(uint8)+1 must not wrap to 0)
